@@ -260,7 +260,12 @@ class Run:
             # which modules failed?
             failed_mods = re.findall(r'^- ([\w.]+)', log, re.M)
             self.extra['lean_build_log_tail'] = log[-3000:]
-            return False, failed_mods or ['<build>']
+            regenerated = [m for m in failed_mods if '.Generated.' in m or '.Obligations.' in m]
+            if not regenerated:
+                # only hand-written files failed: nothing regenerated from /repo is involved, so this is a
+                # defect of /verif itself, not a statement about /repo
+                raise InfraError('Lean build failed in hand-written modules ' + ', '.join(failed_mods) + '\n' + log[-2500:])
+            return False, regenerated
         a = audit(modules)
         self.obligations = a['theorems']
         if a['forbidden']:
@@ -360,3 +365,24 @@ def frac_to_json(x):
     """float -> exact rational [num, den] so both sides see the same real number."""
     n, d = float(x).as_integer_ratio()
     return [n, d]
+
+
+# floats cross the line protocol as IEEE-754 bit patterns (exact both ways)
+import struct as _struct
+
+
+def f2b(x) -> int:
+    return _struct.unpack('<Q', _struct.pack('<d', float(x)))[0]
+
+
+def b2f(n: int) -> float:
+    return _struct.unpack('<d', _struct.pack('<Q', int(n)))[0]
+
+
+def c2j(z):
+    z = complex(z)
+    return [f2b(z.real), f2b(z.imag)]
+
+
+def j2c(p) -> complex:
+    return complex(b2f(p[0]), b2f(p[1]))
